@@ -63,6 +63,7 @@ struct LqRun {
         env.check(memcmp(v.data(), want, 32) == 0, "C15", "marshal:layout", "LQ master key bytes are not the scalar's little-endian bytes");
         for (auto& f : op.s) { if (apply_byte_fault(v, f)) env.count("fault:master_scalar_" + f.substr(0, f.find(':'))); }
         if (!op.s.empty() && op.s[0] == "ge_r") { Bn big = Bn::add(s_raw, K().r); if (big < K().two256) { big.to_le(v.data(), 32); env.count("fault:master_scalar_plus_r"); } }
+        if (!op.s.empty() && op.s[0].compare(0, 4, "val:") == 0) { Bn nv = value_of_code(op.s[0].substr(4)); nv.to_le(v.data(), 32); env.count(op.s[0].compare(4, 4, "glv:") == 0 ? "fault:master_scalar_meets_exceptional_addition" : "fault:master_scalar_boundary_value"); }   // the PKG's key file holds a chosen scalar
         if (!op.s.empty() && op.s[0] == "max") { std::fill(v.begin(), v.end(), 0xFF); env.count("fault:master_scalar_all_ff"); }
         MBytes in(v.data(), v.size(), (size_t) (env.step % 4) * 3 + 1); Buf m2(R.sz(JV_SZ_LQ_MSK));
         int ok = R.jv_lq_unmarshal(view, JV_OK_LQ_MSK, m2, in.p, comp, op.arg(1) != 0);
@@ -96,7 +97,9 @@ struct LqRun {
         Ct c; c.ct.alloc(R.sz(JV_SZ_LQ_CT)); c.id = (size_t) (d - &ids[0]); c.symlen = symlen;
         Bytes sym(symlen + 8, 0xA5);            // 8 guard bytes in front of ASan's redzone: "nothing written beyond the requested length"
         env.hash.calls.clear(); begin((uint64_t) op.arg(0), op.s);
-        R.jv_lq_encrypt(view, c.ct, symlen ? sym.p : sym.p, symlen, params, d->id, jv_hash_cb, jv_rand_cb);
+        bool nullout = symlen == 0 && (op.arg(0) & 1);   // "no key wanted": length 0 with no buffer at all (what std::vector<uint8_t>(0).data() gives); the hash still sees the same bytes
+        if (nullout) env.count("fault:zero_length_key_with_null_buffer");
+        R.jv_lq_encrypt(view, c.ct, nullout ? nullptr : sym.p, symlen, params, d->id, jv_hash_cb, jv_rand_cb);
         c.r = drawn("encrypt"); c.s = s_raw;
         for (size_t i = symlen; i < symlen + 8; i++) env.check(sym.p[i] == 0xA5, "C16", "outlen:forwarded-unchanged", "encrypt wrote beyond the requested symmetric key length");
         env.check(env.hash.calls.size() == 1, "C16", "hash:called-once", strf("encrypt called the hash function %zu times", env.hash.calls.size()));
@@ -153,7 +156,8 @@ struct LqRun {
             hop(JV_OK_LQ_CT, ct, JV_SZ_LQ_CT); hop(JV_OK_LQ_SK, sk, JV_SZ_LQ_SK); what = "after a marshalling hop"; env.count("fault:restart_from_durable_bytes");
         }
         Bytes sym(c.symlen + 8, 0xA5); env.hash.calls.clear(); env.lib_calls++;
-        R.jv_lq_decrypt(view, sym.p, c.symlen, ct, sk, *idp, jv_hash_cb);
+        bool nullout = c.symlen == 0 && ((op.arg(3) >> 4) & 1); if (nullout) env.count("fault:zero_length_key_with_null_buffer");
+        R.jv_lq_decrypt(view, nullout ? nullptr : sym.p, c.symlen, ct, sk, *idp, jv_hash_cb);
         env.check(env.hash.calls.size() == 1 && env.hash.calls[0].outlen == c.symlen, "C16", "outlen:forwarded-unchanged", "decrypt did not ask the hash function for exactly the requested length");
         for (size_t i = c.symlen; i < c.symlen + 8; i++) env.check(sym.p[i] == 0xA5, "C16", "outlen:forwarded-unchanged", "decrypt wrote beyond the requested length");
         bool same = env.hash.calls[0].in == c.hashed;
@@ -162,6 +166,7 @@ struct LqRun {
             env.check(same, "C16", "decrypt:same-hashed-bytes", std::string("decryption fed the hash function different bytes than encryption did ") + what);
             env.check(std::vector<uint8_t>(sym.p, sym.p + c.symlen) == c.sym, "C16", "decrypt:same-symmetric-key", "decryption produced a different symmetric key");
         } else if (Bn::mod(c.r, K().r).is_zero() && (variant == 1 || variant == 2)) env.count("probe:encryption_randomness_zero");   // scripted r = 0: the ciphertext is the identity and every key pairs to 1 with it - legal output of a random source, excluded by the scheme's argument; exempt from the "other key" negative cases
+        else if (Bn::mod(s_raw, K().r).is_zero() && (variant == 1 || variant == 4)) env.count("probe:master_scalar_zero");   // delivered master scalar = 0 mod r: every secret key is the identity and pairs to 1 with anything - a degenerate system, exempt like r = 0 above
         else env.check(!same, "C16", "decrypt:bound-to-identity-master-ciphertext", std::string("hashed bytes are unchanged although decryption used: ") + what);
         env.add_case(strf("lqdec v%d len%zu", variant, c.symlen), !expect_same);
     }
@@ -233,7 +238,7 @@ struct LqScenario : Scenario {
         for (int i = 0; i < n; i++) {
             int k = r.range(0, 11); int64_t ss = (int64_t) (r.next() >> 1);
             if (k == 0) p.ops.push_back({"ID", {}, {rhex(r, 48)}});
-            else if (k == 1) { Op o{"MSKHOP", {r.chance(1, 2), r.chance(1, 2)}, {}}; int m = r.range(0, 4); if (m == 1) o.s.push_back(strf("flip:%d:%d", r.range(28, 31), r.range(4, 7))); else if (m == 2) o.s.push_back("ge_r"); else if (m == 3) o.s.push_back("max"); else if (m == 4) o.s.push_back(strf("set:31:%d", r.range(0x74, 0xFF))); p.ops.push_back(o); }
+            else if (k == 1) { Op o{"MSKHOP", {r.chance(1, 2), r.chance(1, 2)}, {}}; int m = r.range(0, 6); if (m == 1) o.s.push_back(strf("flip:%d:%d", r.range(28, 31), r.range(4, 7))); else if (m == 5) o.s.push_back("val:" + glv_code(r)); else if (m == 6) o.s.push_back("val:" + value_codes()[r.below(value_codes().size())]); else if (m == 2) o.s.push_back("ge_r"); else if (m == 3) o.s.push_back("max"); else if (m == 4) o.s.push_back(strf("set:31:%d", r.range(0x74, 0xFF))); p.ops.push_back(o); }
             else if (k <= 3) p.ops.push_back({"KEYGEN", {(int64_t) r.below(8)}, {}});
             else if (k == 6 && r.chance(1, 12)) p.ops.push_back({"ENCHUGE", {ss, (int64_t) r.below(8)}, {}});
             else if (k <= 6) { Op o{"ENC", {ss, (int64_t) r.below(8), (int64_t) r.below(6)}, {}}; if (r.chance(1, 3)) o.s.push_back(sf[r.below(6)]); p.ops.push_back(o); }
